@@ -153,8 +153,42 @@ func normFingerprint(c *Ctx, fp string) string {
 			break
 		}
 	}
+	// a call of a module function with one result spelled inline (`s[pos(s, n):]`) and the same
+	// call held in a local (`p := pos(s, n); s[p:]`) look alike: the call becomes its result type
+	for round := 0; round < 4; round++ {
+		changed := false
+		fp = fpCall.ReplaceAllStringFunc(fp, func(m string) string {
+			sub := fpCall.FindStringSubmatch(m)
+			res := ""
+			for _, pkg := range c.W.Lib {
+				fn, ok := pkg.Types.Scope().Lookup(sub[1]).(*types.Func)
+				if !ok {
+					continue
+				}
+				sig := fn.Type().(*types.Signature)
+				if sig.Results().Len() != 1 {
+					return m
+				}
+				t := "<" + types.TypeString(sig.Results().At(0).Type(), func(p *types.Package) string { return p.Name() }) + ">"
+				if res != "" && res != t {
+					return m
+				}
+				res = t
+			}
+			if res == "" {
+				return m
+			}
+			changed = true
+			return res
+		})
+		if !changed {
+			break
+		}
+	}
 	return fp
 }
+
+var fpCall = regexp.MustCompile(`\b([A-Za-z_][A-Za-z0-9_]*)\(([^()\[\]]*)\)`)
 
 func (c *Ctx) fnKeys() map[string]bool {
 	if c.fnKeySet == nil {
